@@ -89,8 +89,21 @@ func C05Step(si *engine.StepInfo, pre, post *Snap, g *lifeGhost) []engine.Findin
 				out = append(out, fd("C05", "shard-left-behind", shardStatusName(sh.Status), fmt.Sprintf("order %d is gone but shard %d (status %s, provider %s) still names it", oid, sid, shardStatusName(sh.Status), w.NameOf(sh.Sp))))
 			}
 		}
+		// the order may have ended because its model reached the scheduled end of its paid lifetime in this very step
+		// (the model end-blocker cancels an in-flight order before it removes the model): then the shards of the
+		// committed version expire in the same block and the model is gone, not restored
+		modelExpired := false
+		if pm, ok := pre.Metas[pi.Data]; ok && si.Op.EndTo > 0 {
+			if end := int64(pm.CreatedAt + pm.Duration); end >= pre.H && end <= si.Op.EndTo {
+				_, still := post.Metas[pi.Data]
+				modelExpired = !still
+			}
+		}
 		// (3) no provider's pledge record changed in the step
 		for _, sp := range sortedKeys(pre.Pledges) {
+			if modelExpired {
+				break
+			}
 			a, _ := ptr(pre.Pledges[sp]).Marshal()
 			b, _ := ptr(post.Pledges[sp]).Marshal()
 			if !bytes.Equal(a, b) {
@@ -108,7 +121,7 @@ func C05Step(si *engine.StepInfo, pre, post *Snap, g *lifeGhost) []engine.Findin
 					out = append(out, fd("C05", "alias-not-removed", "", fmt.Sprintf("alias %q of the rolled-back model %s still exists", k, pi.Data)))
 				}
 			}
-		} else {
+		} else if !modelExpired {
 			if !exists {
 				out = append(out, fd("C05", "model-lost-on-rollback", "", fmt.Sprintf("model %s existed before update order %d; it is gone after the rollback", pi.Data, oid)))
 			} else {
